@@ -89,6 +89,10 @@ struct StepObs {
     stats: Stats,
     /// allocation profile of a fresh construction of the step's configuration
     fresh: Stats,
+    /// the same for a shard size two bytes longer (only when the size is a
+    /// multiple of 64, see `history`), and the step's shard size
+    probe: Option<Stats>,
+    size: usize,
     /// working-space need (filled in by `history` from both scales)
     need: usize,
     /// max need over the configurations this working space held before the step
@@ -158,6 +162,8 @@ fn execute(plan: &[Step], scale: usize, data_seed: u64, encoder: bool) -> Result
                     what: format!("new {}({k},{r},{size})", api.name()),
                     stats: Stats::default(),
                     fresh: fresh_profile(*api, *k, *r, size, encoder),
+                    probe: (size % 64 == 0).then(|| fresh_profile(*api, *k, *r, size + 2, encoder)),
+                    size,
                     need: 0,
                     held_before: 0,
                     shard: size.div_ceil(64) * 64,
@@ -170,6 +176,7 @@ fn execute(plan: &[Step], scale: usize, data_seed: u64, encoder: bool) -> Result
             Step::Reset(k, r, s) => {
                 let size = s * scale;
                 let fresh = fresh_profile(cur.0, *k, *r, size, encoder);
+                let probe = (size % 64 == 0).then(|| fresh_profile(cur.0, *k, *r, size + 2, encoder));
                 let (res, stats) = measure(|| {
                     if encoder {
                         enc.as_mut().unwrap().reset(*k, *r, size)
@@ -182,6 +189,8 @@ fn execute(plan: &[Step], scale: usize, data_seed: u64, encoder: bool) -> Result
                     what: format!("reset({k},{r},{size})"),
                     stats,
                     fresh,
+                    probe,
+                    size,
                     need: 0,
                     held_before: 0,
                     shard: size.div_ceil(64) * 64,
@@ -195,6 +204,7 @@ fn execute(plan: &[Step], scale: usize, data_seed: u64, encoder: bool) -> Result
             Step::Recycle(api, k, r, s) => {
                 let size = s * scale;
                 let fresh = fresh_profile(*api, *k, *r, size, encoder);
+                let probe = (size % 64 == 0).then(|| fresh_profile(*api, *k, *r, size + 2, encoder));
                 let (res, stats) = measure(|| -> Result<(), String> {
                     if encoder {
                         let work = enc.take().unwrap().into_work();
@@ -210,6 +220,8 @@ fn execute(plan: &[Step], scale: usize, data_seed: u64, encoder: bool) -> Result
                     what: format!("into_parts -> {}::new({k},{r},{size},Some(work))", api.name()),
                     stats,
                     fresh,
+                    probe,
+                    size,
                     need: 0,
                     held_before: 0,
                     shard: size.div_ceil(64) * 64,
@@ -252,6 +264,8 @@ fn execute(plan: &[Step], scale: usize, data_seed: u64, encoder: bool) -> Result
                     what: format!("round on {}({k},{r},{size})", api.name()),
                     stats,
                     fresh: Stats::default(),
+                    probe: None,
+                    size,
                     need: 0,
                     held_before: 0,
                     shard: size.div_ceil(64) * 64,
@@ -292,10 +306,34 @@ fn history(case_seed: u64, out: &mut CaseOut, encoder: bool) {
             continue;
         }
         let (n1, n8) = needs(&s1.fresh, &s8.fresh);
-        s1.need = n1;
-        s8.need = n8;
+        // A shard of S bytes occupies ceil(S / 64) blocks - that part of the
+        // need is defined outside the crate. When S is a multiple of 64 the
+        // number of positions is taken from a fresh construction for S + 2
+        // bytes (one block more per shard, no ambiguity about the tail) and
+        // the need is positions x ceil(S / 64) blocks, if that is smaller than
+        // what the crate's own construction for S allocates. (An estimate of
+        // positions that is too high only makes fewer steps count as
+        // non-growing.)
+        let est = |fresh_need: usize, probe_need: usize, size: usize| -> usize {
+            let probe_blocks = (size + 2).div_ceil(64);
+            if probe_need == 0 {
+                return fresh_need;
+            }
+            let positions = probe_need.div_ceil(probe_blocks * 64);
+            fresh_need.min(positions * size.div_ceil(64) * 64)
+        };
+        let (m1, m8) = match (&s1.probe, &s8.probe) {
+            (Some(p1), Some(p8)) => {
+                let (a1, a8) = needs(p1, p8);
+                (est(n1, a1, s1.size), est(n8, a8, s8.size))
+            }
+            _ => (n1, n8),
+        };
+        s1.need = m1;
+        s8.need = m8;
         s1.held_before = held.0;
         s8.held_before = held.1;
+        // what the object holds is what was really allocated for it
         held = (held.0.max(n1), held.1.max(n8));
     }
     let mut prev_addr: [usize; 2] = [0, 0];
